@@ -8,9 +8,18 @@ C10 — the password-hash STRING layer (`Model.PwhashStr`, mirroring
 `pwhash_to_string`, `Pwhash::parse_encoded_pwhash`, `crypto_pwhash_str_verify`,
 `crypto_pwhash_str_needs_rehash`, `PwHash::to_string/from_string`).
 
-Helper lemmas live in `Proofs/PwhashStr.lean`; §9–§13 (the producer `crypto_pwhash_str`, the
+Helper lemmas live in `Proofs/PwhashStr.lean`; §9–§14 (the producer `crypto_pwhash_str`, the
 code-shaped `from_string`/`to_string` and `from_string`/`verify` routes of `Model/PwhashApi.lean`,
-and the instance with the project's Argon2 model) rest on `Proofs/PwhashExtra.lean`.
+the instance with the project's Argon2 model, and the object API's producer
+`PwHash::hash_with_salt(..)?.to_string()`) rest on `Proofs/PwhashExtra.lean`.
+
+NOT PROVED HERE (differential-only).  Everything below relates dryoc's encoder, dryoc's parser and dryoc's
+verifiers to EACH OTHER and to RFC 9106.  The two interoperability clauses of the property — "strings produced by
+dryoc are accepted by libsodium's verifier" and "strings produced by libsodium verify under dryoc" — are NOT theorems
+of this file: libsodium's decoder (`argon2_decode_string`, its field order, its rejection of a `+` sign, of leading
+zeros …) and its `crypto_pwhash_STRBYTES = 128` length limit (which a dryoc string with a 64-byte salt or a
+128-byte hash exceeds) are not modelled.  Those clauses are checked only by the differential run against the real
+libsodium.
 -/
 namespace DryocVerif.Properties.C10
 open DryocVerif DryocVerif.Spec.Base64 DryocVerif.Model.PwhashStr
@@ -635,6 +644,79 @@ example : parse "$argon2id$v=19$m=4294967295,t=1,p=1$AA$/w".toList =
       .ok { pwhash := some [255], salt := some [0], ty := some .argon2id, t := some 1,
             m := some 4294967295, p := some 1, version := some 19 }
     ∧ ¬ 7 * (max 4294967295 8 / 4) < 2 ^ 32 + 3 := by decide
+
+/-! ## 14. the producer side of the OBJECT API: `PwHash::hash_with_salt(pwd, salt, config)?.to_string()`
+
+`objToString alg opslimit memlimit salt hash` (`Model/PwhashApi.lean`) follows `PwHash::to_string`:
+`convert_costs(config.opslimit, config.memlimit)`, then `pwhash_to_string`.  Unlike `crypto_pwhash_str` (§9: Argon2id,
+16-byte salt, 32-byte hash) the object API lets the caller choose the algorithm, any salt of 8 … 2^32−1 bytes and any
+hash length of 16 … 2^32−2 bytes (the property quantifies over salts 8..=64 and hash lengths 16..=128). -/
+
+/-- `to_string` prints the configured limits untruncated whenever they are in `crypto_pwhash`'s range -/
+theorem objToString_eq (alg : Alg) {opslimit memlimit : Nat} (salt hash : Bytes)
+    (ho : opslimit ≤ 4294967295) (hm : memlimit ≤ 4398046510080) :
+    objToString alg opslimit memlimit salt hash = encode alg opslimit (memlimit / 1024) salt hash :=
+  Proofs.PwhashExtra.objToString_eq alg salt hash ho hm
+
+/-- **the object API's producer is self-describing and verifies** — from `Ok` alone, no side condition: if
+`PwHash::hash_with_salt(pwd, salt, config)` returned `Ok` with hash `hash` (either algorithm, any accepted salt and
+hash length), then the string `to_string` prints parses back to EXACTLY the hash, the salt, the algorithm, the costs
+`(opslimit, memlimit / 1024)`, one lane and version 19, and `PwHash::from_string(s)?.verify(pwd)` accepts the
+password.  (The ranges come out of the `Ok`: `crypto_pwhash` has range-checked the limits — so `convert_costs`
+truncates nothing —, `Argon2Context::new` has checked `8 ≤ |salt|`, and `hash.len() = hash_length ≥ 16`, so neither
+base64 field is empty.) -/
+theorem objHash_toString_self_describing {alg : Alg} {n : Nat} {pwd salt hash : Bytes} {opslimit memlimit : Nat}
+    (hmade : Model.Argon2.objHashWithSalt n salt opslimit memlimit alg.num pwd = .ok hash) :
+    parse (objToString alg opslimit memlimit salt hash)
+        = .ok { pwhash := some hash, salt := some salt, ty := some alg, t := some opslimit,
+                m := some (memlimit / 1024), p := some 1, version := some 19 }
+      ∧ strVerifyRaw (objToString alg opslimit memlimit salt hash) pwd = .ok () :=
+  Proofs.PwhashExtra.objHash_toString_self_describing hmade
+
+/-- what the `Ok` of `hash_with_salt` supplies (the ranges used above), spelled out -/
+theorem objHashWithSalt_ok_inv {alg : Alg} {n : Nat} {pwd salt hash : Bytes} {opslimit memlimit : Nat}
+    (hmade : Model.Argon2.objHashWithSalt n salt opslimit memlimit alg.num pwd = .ok hash) :
+    (1 ≤ opslimit ∧ opslimit ≤ 4294967295) ∧ (8192 ≤ memlimit ∧ memlimit ≤ 4398046510080)
+      ∧ 8 ≤ salt.length ∧ 16 ≤ n ∧ hash.length = n := by
+  obtain ⟨h1, h2, _, hv, hl⟩ := Proofs.PwhashExtra.cryptoPwhash_ok_inv (Proofs.PwhashExtra.algNum_cases alg) hmade
+  exact ⟨h1, h2, hv.salt_ge, hv.outlen_ge, hl⟩
+
+/-- non-vacuity witnesses: `hmade` is satisfiable at both ends of the quantified ranges — Argon2i with an 8-byte salt
+and a 16-byte hash, Argon2id with a 64-byte salt and a 128-byte hash (`OPSLIMIT_MIN`, resp. 3, `MEMLIMIT_MIN`) — by
+C09's `cryptoPwhash_eq_spec`; so the conclusion holds for those strings -/
+example : ∃ hash, Model.Argon2.objHashWithSalt 16 (List.replicate 8 7) 3 8192 Alg.argon2i.num [1, 2, 3] = .ok hash
+    ∧ parse (objToString .argon2i 3 8192 (List.replicate 8 7) hash)
+        = .ok { pwhash := some hash, salt := some (List.replicate 8 7), ty := some .argon2i, t := some 3,
+                m := some 8, p := some 1, version := some 19 }
+    ∧ strVerifyRaw (objToString .argon2i 3 8192 (List.replicate 8 7) hash) [1, 2, 3] = .ok () := by
+  have h := Proofs.PwhashExtra.cryptoPwhash_spec (outlen := 16) (pwd := [1, 2, 3]) (salt := List.replicate 8 7)
+    (opslimit := 3) (memlimit := 8192) (alg := 1) (.inl rfl) (by constructor <;> simp) (by decide) (by decide)
+  exact ⟨_, h, objHash_toString_self_describing (alg := .argon2i) h⟩
+
+example : ∃ hash, Model.Argon2.objHashWithSalt 128 (List.replicate 64 7) 1 8192 Alg.argon2id.num [] = .ok hash
+    ∧ hash.length = 128
+    ∧ strVerifyRaw (objToString .argon2id 1 8192 (List.replicate 64 7) hash) [] = .ok () := by
+  have h := Proofs.PwhashExtra.cryptoPwhash_spec (outlen := 128) (pwd := []) (salt := List.replicate 64 7)
+    (opslimit := 1) (memlimit := 8192) (alg := 2) (.inr rfl) (by constructor <;> simp) (by decide) (by decide)
+  exact ⟨_, h, (objHashWithSalt_ok_inv (alg := .argon2id) h).2.2.2.2,
+    (objHash_toString_self_describing (alg := .argon2id) h).2⟩
+
+/-- **Observations** (none of them a defect of the round trips above).
+* `crypto_pwhash_str_needs_rehash` runs `convert_costs` on the REQUESTED limits — truncation to 32 bits — before
+  comparing and never range-checks them: on a string recorded with `t` it answers `Ok(false)` for the request
+  `opslimit = t + 2^32` (outside the hypothesis `ho` of `needs_rehash_iff`); libsodium's `_needs_rehash` returns
+  −1 / `EINVAL` for `opslimit > UINT32_MAX` or `memlimit / 1024 > UINT32_MAX`.  (Model-level statement; that libsodium
+  errors there is read off its source and exercised by the differential run, it is not modelled.)
+* `crypto_pwhash_str_verify` recomputes 32 bytes whatever the length of the hash field (§11,
+  `strVerify_rejects_other_lengths`), so the strings of this section with `hash_length ≠ 32` verify only through the
+  object API (`verify_routes_differ`). -/
+theorem needs_rehash_wraps (alg : Alg) (t m : Nat) (salt hash : Bytes)
+    (ht : t < 2 ^ 32) (hm : m < 2 ^ 32) (hs : salt ≠ []) (hh : hash ≠ []) :
+    needsRehash (encode alg t m salt hash) (t + 2 ^ 32) (1024 * m) = .ok false :=
+  Proofs.PwhashExtra.needsRehash_wraps alg t m salt hash ht hm hs hh
+
+/-- non-vacuity witness for `needs_rehash_wraps` (evaluated) -/
+example : needsRehash (encode .argon2id 2 65536 [1] [2]) (2 + 2 ^ 32) (1024 * 65536) = .ok false := by decide
 
 /-! ## non-vacuity -/
 
